@@ -804,6 +804,24 @@ class NodeFor:
         self.what = what
 
     def evaluate(self, environment):
+        # the loop variables live in the enclosing scope while the loop
+        # runs; whatever that scope bound to these names before is put back
+        # afterwards, however the loop ends
+        saved = {
+            name: environment.map[name]
+            for name in self.identifiers
+            if name in environment.map
+        }
+        try:
+            return self.iterate(environment)
+        finally:
+            for name in self.identifiers:
+                if name in saved:
+                    environment.map[name] = saved[name]
+                else:
+                    environment.map.pop(name, None)
+
+    def iterate(self, environment):
         lst = self.expression.evaluate(environment)
         if lst.isInput():
             input_ = lst
